@@ -6,6 +6,7 @@ import (
 	"bytes"
 	"context"
 	"fmt"
+	"io"
 	"os"
 	"os/exec"
 	"path/filepath"
@@ -116,28 +117,28 @@ func genCase(t *rapid.T) Case {
 // ---------------------------------------------------------------- program text and model
 
 type childInst struct {
-	dest      string
-	openOp    int
-	closeOp   int // -1: left open until the end of the run
-	lines     []string
-	toStderr  bool
+	dest       string
+	openOp     int
+	closeOp    int // -1: left open until the end of the run
+	lines      []string
+	toStderr   bool
 	concurrent bool // own stdout writes happened while it was open
 }
 
 type model struct {
-	src        string
-	own        []string // own stdout lines in order
-	ownOp      []int    // the op that emitted each
-	children   []*childInst
-	sysLines   map[int]string // op -> line a system() child prints to stdout
-	files      map[string]string
-	stderrWant []string
-	status     int
-	wantErr    bool
-	reopen     bool
+	src               string
+	own               []string // own stdout lines in order
+	ownOp             []int    // the op that emitted each
+	children          []*childInst
+	sysLines          map[int]string // op -> line a system() child prints to stdout
+	files             map[string]string
+	stderrWant        []string
+	status            int
+	wantErr           bool
+	reopen            bool
 	abnormalUnflushed bool
-	ndest      int
-	skippedSize int
+	ndest             int
+	skippedSize       int
 }
 
 func payload(k int, dest string, form int) (stmtArgs string, line string) {
@@ -621,6 +622,25 @@ func runHistory(x *h.Ctx, c Case) string {
 		return ""
 	}
 	if msg := judge(c, m, o); msg != "" {
+		if h.KFOpen("KF-C13-4") && !x.Replaying() && (strings.Contains(msg, "stdout lacks the child") || strings.Contains(msg, "stdout lacks the system line")) {
+			// KF-C13-4: goawk drops what is left of a child's output when it cannot be drained within 250 ms
+			// after the child has exited.  On a starved machine that shows up at random; it is reported here
+			// only if the very same case loses output again on two immediate re-runs.
+			again := 0
+			for i := 0; i < 2; i++ {
+				d2 := h.TempDir("c13")
+				prepare(d2)
+				o2, ok2 := runCase(c, m, d2, h.GoawkBin)
+				os.RemoveAll(d2)
+				if ok2 && judge(c, m, o2) != "" {
+					again++
+				}
+			}
+			if again < 2 {
+				x.Excluded("KF-C13-4")
+				return ""
+			}
+		}
 		return msg + "\n" + describe(c, m, o)
 	}
 	x.Class("via-" + c.Via)
@@ -771,4 +791,125 @@ func init() {
 		return c
 	}, runRace)
 	h.Enum("failing_writer_every_byte", enumFault, runFault)
+}
+
+// ---------------------------------------------------------------- a slow reader downstream of goawk
+
+// SlowCase: a child process sharing standard output writes N bytes while whoever reads goawk's standard
+// output does not read for DelayMS.  Every byte has to arrive (in order) once the reader does read.
+type SlowCase struct {
+	N       int    `json:"n"`        // bytes the child writes
+	DelayMS int    `json:"delay_ms"` // the reader starts reading this long after goawk was started
+	How     string `json:"how"`      // system | pipe-close | pipe-open-at-end
+	Own     int    `json:"own"`      // lines goawk itself prints before and after
+}
+
+func genSlow(t *rapid.T) SlowCase {
+	return SlowCase{N: rapid.SampledFrom([]int{10, 4000, 60000, 70000, 140000, 200000, 1000000}).Draw(t, "n"), DelayMS: rapid.SampledFrom([]int{0, 0, 100, 600, 1200}).Draw(t, "delay"),
+		How: rapid.SampledFrom([]string{"system", "pipe-close", "pipe-open-at-end"}).Draw(t, "how"), Own: rapid.IntRange(0, 3).Draw(t, "own")}
+}
+
+func runSlow(x *h.Ctx, c SlowCase) string {
+	child := fmt.Sprintf("head -c %d /dev/zero | tr '\\\\000' x; echo", c.N)
+	var body strings.Builder
+	for i := 0; i < c.Own; i++ {
+		fmt.Fprintf(&body, "  print \"before%d\"\n", i)
+	}
+	switch c.How {
+	case "system":
+		fmt.Fprintf(&body, "  r = system(\"%s\"); print \"r=\" r\n", child)
+	case "pipe-close":
+		fmt.Fprintf(&body, "  print \"go\" | \"cat >/dev/null; %s\"; r = close(\"cat >/dev/null; %s\"); print \"r=\" r\n", child, child)
+	default:
+		fmt.Fprintf(&body, "  print \"go\" | \"cat >/dev/null; %s\"\n", child)
+	}
+	for i := 0; i < c.Own && c.How != "pipe-open-at-end"; i++ {
+		fmt.Fprintf(&body, "  print \"after%d\"\n", i)
+	}
+	src := "BEGIN {\n" + body.String() + "}\n"
+	ctx, cancel := context.WithTimeout(context.Background(), 60*time.Second)
+	defer cancel()
+	cmd := exec.CommandContext(ctx, h.GoawkBin, src)
+	cmd.Stdin = strings.NewReader("")
+	var errBuf bytes.Buffer
+	cmd.Stderr = &errBuf
+	pr, err := cmd.StdoutPipe()
+	if err != nil {
+		x.Discard("no pipe")
+		return ""
+	}
+	if err := cmd.Start(); err != nil {
+		x.Discard("cannot start goawk")
+		return ""
+	}
+	time.Sleep(time.Duration(c.DelayMS) * time.Millisecond)
+	data, _ := io.ReadAll(pr)
+	werr := cmd.Wait()
+	if ctx.Err() != nil {
+		x.Discard("wall-clock guard")
+		return ""
+	}
+	out := string(data)
+	var want strings.Builder
+	for i := 0; i < c.Own; i++ {
+		fmt.Fprintf(&want, "before%d\n", i)
+	}
+	want.WriteString(strings.Repeat("x", c.N) + "\n")
+	if c.How != "pipe-open-at-end" {
+		want.WriteString("r=0\n")
+		for i := 0; i < c.Own; i++ {
+			fmt.Fprintf(&want, "after%d\n", i)
+		}
+	}
+	x.Class("how-" + c.How)
+	if out == want.String() && werr == nil {
+		if c.N > 65536 && c.DelayMS >= 600 {
+			x.Class("reader-slower-than-grace-period")
+		}
+		x.Nontrivial("")
+		return ""
+	}
+	got := strings.Count(out, "x")
+	// KF-C13-4: goawk gives up on a child's remaining output 250 ms after the child has exited (exec's WaitDelay),
+	// whether the delay comes from a reader that stays away or from a busy machine.  Its one manifestation is
+	// masked: the child's output is cut short (a proper prefix arrives, nothing is reordered or corrupted) and
+	// everything else is as expected, with close()/system() reporting -1 or 0.
+	if h.KFOpen("KF-C13-4") && werr == nil && (got < c.N || strings.Contains(errBuf.String(), "WaitDelay expired") || c.How == "pipe-open-at-end") {
+		rest := out
+		okShape := true
+		for i := 0; i < c.Own; i++ {
+			pre := fmt.Sprintf("before%d\n", i)
+			if !strings.HasPrefix(rest, pre) {
+				okShape = false
+			}
+			rest = strings.TrimPrefix(rest, pre)
+		}
+		rest = strings.TrimLeft(rest, "x")
+		rest = strings.TrimPrefix(rest, "\n")
+		if c.How != "pipe-open-at-end" {
+			if strings.HasPrefix(rest, "r=-1\n") {
+				rest = strings.TrimPrefix(rest, "r=-1\n")
+			} else if strings.HasPrefix(rest, "r=0\n") {
+				rest = strings.TrimPrefix(rest, "r=0\n")
+			} else {
+				okShape = false
+			}
+			for i := 0; i < c.Own; i++ {
+				aft := fmt.Sprintf("after%d\n", i)
+				if !strings.HasPrefix(rest, aft) {
+					okShape = false
+				}
+				rest = strings.TrimPrefix(rest, aft)
+			}
+		}
+		if okShape && rest == "" {
+			x.Excluded("KF-C13-4")
+			return ""
+		}
+	}
+	return fmt.Sprintf("output of a child process sharing standard output did not arrive completely and in order\nchild wrote %d bytes, %d arrived; reader started after %d ms; how=%s; goawk exit: %v\nstderr: %s\nprogram:\n%sstdout (abridged): %s", c.N, got, c.DelayMS, c.How, werr, h.Trunc(errBuf.String(), 300), src, h.Trunc(strings.ReplaceAll(out, strings.Repeat("x", 50), "X"), 400))
+}
+
+func init() {
+	h.Prop("child_output_with_slow_reader", 60, 600, genSlow, runSlow)
 }
